@@ -211,6 +211,24 @@ def _result_defs(b, local=0, _seen=None):
     return out
 
 
+def _map_or_default_problems(F, V, b):
+    """in the element-wise comparison `other.get(k).map_or(DEFAULT, |v| ..)` a key missing from `other` must answer false"""
+    out = []
+    for q in [b.path] + [c for c in F.bodies if c.startswith(b.path + "::{closure")]:
+        qb = F.bodies[q]
+        for i, t in qb.calls():
+            cp = callee_path(t) or ""
+            if cp.endswith("Option::map_or") and len(t["args"]) > 1:
+                dflt = t["args"][1]
+                if dflt["k"] == "const" and dflt.get("val") in (1, True):
+                    out.append("a key that is missing from the other map counts as EQUAL (map_or(true, ..)): maps with different key sets of the same size compare equal")
+                elif dflt["k"] != "const":
+                    out.append("the answer for a key missing from the other map is not the constant false")
+            if cp.endswith("Option::is_none_or"):
+                out.append("a key that is missing from the other map counts as equal (is_none_or)")
+    return out
+
+
 def r_eq_len(F, V):
     R = Result("R-EQ-LEN", F.cfg)
     n = 0
@@ -262,11 +280,24 @@ def r_eq_len(F, V):
                     problems.append("eq returns the result of %s instead of the element scan" % (callee_path(t) or "an indirect call"))
             elif val not in ("false",):
                 problems.append("eq returns a value that is neither `false` nor the element scan's result (%s)" % val)
+        problems += _map_or_default_problems(F, V, b)
         if problems:
             R.violation(key, b, "; ".join(sorted(set(problems))))
             R.inst(key, "; ".join(sorted(set(problems))), "violation", True, where(b))
         else:
             R.inst(key, "scan guarded by len() equality; membership via other's own hasher; `true` only from the scan", "ok", True, where(b))
+    # the parallel counterparts decide a missing key the same way
+    for pp_ in ("external_trait_impls::rayon::map::HashMap::par_eq",):
+        pb = F.bodies.get(pp_)
+        if pb is None:
+            continue
+        n += 1
+        pr = _map_or_default_problems(F, V, pb)
+        if pr:
+            R.violation(pp_ + "|missing-key", pb, "; ".join(sorted(set(pr))))
+            R.inst(pp_ + "|missing-key", "; ".join(sorted(set(pr))), "violation", True, where(pb))
+        else:
+            R.inst(pp_ + "|missing-key", "a key missing from the other map makes the comparison false", "ok", True, where(pb))
     R.floor("PartialEq impls", n, {"posctl": 0}.get(F.cfg, 2))
     return R
 
@@ -687,11 +718,25 @@ def r_split_abut(F, V):
         S_mid = sources(b, tail_start, transparent=_TP_PTR)
         if not any(bop in S_mid.binops for bop in ("BitAnd", "Shr", "Div", "Mul", "Shl")):
             problems.append("the split point is not rounded to a multiple of Group::WIDTH")
+    # a range is only split when something lies beyond the group being walked: the tail construction (RawIterRange::new,
+    # which requires len != 0) happens on the edge `end > next_ctrl`, i.e. the early `(self, None)` covers `end <= next_ctrl`
+    if news:
+        from rules.lookup import _relation
+        is_end = lambda S_: S_.has_load("end") and not S_.has_load("next_ctrl")
+        is_nc = lambda S_: S_.has_load("next_ctrl") and not S_.has_load("end")
+        j, t = news[0]
+        rels = [_relation(b, bb, sx, is_end, is_nc) for (bb, sx) in b.control_deps_trans(j, "all")]
+        rels = [r for r in rels if r]
+        if not rels:
+            problems.append("the split is not guarded by a comparison of `end` with `next_ctrl`")
+        elif ">" not in rels:
+            problems.append("a tail is split off on the edge `end %s next_ctrl` instead of `end > next_ctrl`: when the range ends exactly at the current group's boundary a zero-length tail starting at `end` is built "
+                            "(RawIterRange::new requires len != 0): elements are visited twice through out-of-bounds buckets" % rels[0])
     if problems:
         R.violation(key, b, "; ".join(problems))
         R.inst(key, "; ".join(problems), "violation", True, where(b))
     else:
-        R.inst(key, "head end and tail start are one value, rounded to a group boundary", "ok", True, where(b))
+        R.inst(key, "head end and tail start are one value, rounded to a group boundary; split only when end > next_ctrl", "ok", True, where(b))
     return R
 
 
